@@ -17,11 +17,21 @@ def impl_resync(case):
     out, _, _ = pc.impl_parse(P + enc)
     fail = None
     try:
-        a = pc.msgs_out(mido.parser.parse_all(P))
-        b = pc.msgs_out(mido.parser.parse_all(P + enc))
+        ma, mb = mido.parser.parse_all(P), mido.parser.parse_all(P + enc)
+        a = pc.msgs_out(ma)
+        b = pc.msgs_out(mb)
         want = [a[0] + 1] + a[1:] + mi
-        if b != want:
-            fail = ('resync', 'prefix %r + %r: got %r, expected the messages of the prefix then the message' % (P, enc, b))
+        if b != want or any(x.time != 0 for x in ma + mb):
+            fail = ('resync', 'prefix %r + %r: got %r (times %r), expected the messages of the prefix then the message' % (P, enc, b, [x.time for x in mb]))
+        else:
+            # what was delivered belongs to its receiver (a recorder stamps msg.time): edited, it must not come back when the same bytes -
+            # or any others - are parsed afterwards
+            for x in ma + mb:
+                canon.scribble(x)
+            mc = mido.parser.parse_all(P + enc)
+            if pc.msgs_out(mc) != want or any(x.time != 0 for x in mc) or {id(x) for x in mc} & {id(x) for x in ma + mb}:
+                fail = ('resync-aliasing', 'after the messages parsed from %r + %r were edited by their receiver, parsing the same bytes again gives %r (times %r)'
+                        % (P, enc, pc.msgs_out(mc), [x.time for x in mc]))
     except Exception as e:  # noqa: BLE001
         fail = ('resync-raises', 'prefix %r + %r raised %r' % (P, enc, e))
     return out, fail, 'resync:' + canon.KINDS[mi[0]][0]
